@@ -169,7 +169,9 @@ Print Assumptions c08_names_determine_statement.
 
 (** For every multi-client program, every cache size >= 1, every assignment of transactions to
     server connections: if no two statements of the program collide under the hash and the
-    program passes the (computable, specification-only) guard of Cache.v, then each client
+    program passes the (computable, specification-only) guard of Cache.v (good statements;
+    Bind/Describe of existing names, Execute after Bind, Close of named statements; at most [cs]
+    server-side statements needed per batch), then each client
     receives, Sync by Sync, what a direct connection would have sent: the same statement run by
     every Execute, described by every Describe, no error, the same acknowledgements. *)
 Theorem c08_refines_direct : forall K ops,
@@ -195,52 +197,43 @@ Theorem c08_evicted_closed_and_reprepared : forall K ops w,
 Proof. exact evicted_closed. Qed.
 Print Assumptions c08_evicted_closed_and_reprepared.
 
-(** ** Non-vacuity: guarded programs with evictions, shared and shadowed names, several servers *)
+(** ** Non-vacuity: guarded programs with evictions, shared and shadowed names, several servers,
+    names closed and re-prepared inside one batch, one statement bound many times with cache size 1 *)
 Example c08_guard_nonvacuous :
   agree (Kid 1) [Parse 0 1 10; Sync 0 0; Parse 1 1 11; Sync 1 0; Parse 1 2 10; Bind 1 2; Execute 1; Sync 1 0; Bind 0 1; Execute 0; Sync 0 0] = (true, true) /\
   agree (Kid 4) [Parse 0 1 10; Parse 1 1 11; Sync 0 0; Sync 1 0; Bind 0 1; Execute 0; Sync 0 1; Bind 1 1; Execute 1; Sync 1 1] = (true, true) /\
   agree (Kid 2) [Parse 0 1 10; Parse 0 2 11; Sync 0 0; Bind 0 1; Execute 0; Bind 0 2; Execute 0; Sync 0 1; Close 0 1; Sync 0 1; Parse 0 1 12; Bind 0 1; Execute 0; Sync 0 0] = (true, true) /\
+  agree (Kid 1) [Parse 0 1 10; Sync 0 0; Bind 0 1; Execute 0; Bind 0 1; Execute 0; Bind 0 1; Execute 0; Describe 0 1; Sync 0 0] = (true, true) /\
   model_obs (Kid 1) [Parse 0 1 10; Bind 0 1; Execute 0; Sync 0 0; Parse 0 2 11; Bind 0 2; Execute 0; Sync 0 0; Bind 0 1; Execute 0; Sync 0 0]
     = [NReplies 0 ([RRow 10], (1, 1, 0, 1)); NReplies 0 ([RRow 11], (1, 1, 0, 1)); NReplies 0 ([RRow 10], (0, 1, 0, 1))].
 Proof. vm_compute. repeat split; reflexivity. Qed.
 
-(** ** The hypothesis and every clause of the guard are needed: refuted strengthenings.
-    [agree K ops = (g, a)]: g = the guard, a = (model_obs = spec_obs).  Each witness is a
-    message sequence to be confirmed on the wire (see props/c08.py WITNESSES). *)
+(** ** Regressions: the message sequences of the repaired defects F11a, F11b, F11c, F11d, F11f and
+    the repaired half of F11g now behave like a direct connection ([agree K ops = (guard, equal)]). *)
+Example c08_fixed_F11bcd_now_inside_the_guard :
+  agree (Kid 8) [Parse 0 1 10; Sync 0 0; Close 0 1; Parse 0 1 11; Sync 0 0; Bind 0 1; Execute 0; Sync 0 0] = (true, true) /\
+  agree (Kid 8) [Parse 0 1 10; Sync 0 0; Close 0 1; Parse 0 1 11; Bind 0 1; Execute 0; Sync 0 0; Parse 1 5 11; Bind 1 5; Execute 1; Sync 1 0] = (true, true) /\
+  agree (Kid 8) [Parse 0 1 10; Sync 0 0; Bind 0 1; Execute 0; Close 0 1; Parse 0 1 11; Sync 0 1] = (true, true) /\
+  agree (Kid 2) [Parse 0 0 10; Bind 0 0; Execute 0; Parse 0 0 11; Bind 0 0; Execute 0; Sync 0 0] = (true, true).
+Proof. vm_compute. repeat split; reflexivity. Qed.
+Example c08_fixed_F11a_F11f_F11g_agree_outside_the_guard :
+  agree (Kid 8) [Parse 0 1 90; Parse 0 2 10; Sync 0 0; Parse 0 2 10; Sync 0 0; Bind 0 2; Execute 0; Sync 0 0] = (false, true) /\
+  agree (Kid 8) [Parse 0 1 90; Parse 0 2 10; Sync 0 0; Parse 1 7 10; Bind 1 7; Execute 1; Sync 1 0] = (false, true) /\
+  agree (Kid 4) [Parse 0 1 10; Sync 0 0; Parse 1 1 99; Bind 1 1; Execute 1; Sync 1 0; Bind 0 1; Execute 0; Sync 0 0] = (false, true) /\
+  agree (Kid 2) [Parse 1 1 10; Sync 1 0; Parse 1 2 11; Sync 1 0; Parse 0 1 90; Sync 0 1; Bind 0 1; Execute 0; Sync 0 0;
+                 Bind 1 1; Execute 1; Sync 1 0; Bind 1 1; Execute 1; Sync 1 0] = (false, true).
+Proof. vm_compute. repeat split; reflexivity. Qed.
+
+(** ** The hypothesis and every clause of the guard are needed: refuted strengthenings, each
+    confirmed on the wire (props/c08.py WITNESSES; pgcat = this model, both differ from a direct
+    connection). *)
 
 (* without hash_collision_free: two statements with one hash share a server-side statement *)
 Example c08_hash_collision_refuted :
   agree (Kcollide 4) [Parse 0 1 10; Sync 0 0; Parse 1 1 11; Bind 1 1; Execute 1; Sync 1 0] = (true, false).
 Proof. vm_compute. reflexivity. Qed.
 
-(* (i) two Parses in one batch, the first fails: the second stays in the server cache although
-   the backend skipped it; the retry is acknowledged from the cache, the Bind then fails *)
-Example c08_gap_first_parse_fails_second_stays_cached :
-  agree (Kid 8) [Parse 0 1 90; Parse 0 2 10; Sync 0 0; Parse 0 2 10; Sync 0 0; Bind 0 2; Execute 0; Sync 0 0] = (false, false) /\
-  agree (Kid 8) [Parse 0 1 90; Parse 0 2 10; Sync 0 0; Parse 1 7 10; Bind 1 7; Execute 1; Sync 1 0] = (false, false).
-Proof. vm_compute. split; reflexivity. Qed.
-
-(* G2: Close n and Parse n in one batch: the new statement is lost *)
-Example c08_gap_close_then_parse_same_batch :
-  agree (Kid 8) [Parse 0 1 10; Sync 0 0; Close 0 1; Parse 0 1 11; Sync 0 0; Bind 0 1; Execute 0; Sync 0 0] = (false, false) /\
-  model_obs (Kid 8) [Parse 0 1 10; Sync 0 0; Close 0 1; Parse 0 1 11; Sync 0 0; Bind 0 1; Execute 0; Sync 0 0]
-    = [NReplies 0 ([], (1, 0, 0, 1)); NReplies 0 ([], (1, 0, 1, 1)); NKilled 0].
-Proof. vm_compute. split; reflexivity. Qed.
-
-(* ... and with the Bind in the same batch the task dies inside the 'S' arm and leaves a name in
-   the server cache that the backend never saw: the next client preparing that text fails *)
-Example c08_gap_close_parse_bind_poisons_next_client :
-  agree (Kid 8) [Parse 0 1 10; Sync 0 0; Close 0 1; Parse 0 1 11; Bind 0 1; Execute 0; Sync 0 0; Parse 1 5 11; Bind 1 5; Execute 1; Sync 1 0] = (false, false) /\
-  model_obs (Kid 8) [Parse 0 1 10; Sync 0 0; Close 0 1; Parse 0 1 11; Bind 0 1; Execute 0; Sync 0 0; Parse 1 5 11; Bind 1 5; Execute 1; Sync 1 0]
-    = [NReplies 0 ([], (1, 0, 0, 1)); NKilled 0; NReplies 1 ([RErr], (1, 0, 0, 1))].
-Proof. vm_compute. split; reflexivity. Qed.
-
-(* G2: Bind n renamed when buffered, looked up again at Sync after a later Parse n *)
-Example c08_gap_bind_then_reparse :
-  agree (Kid 8) [Parse 0 1 10; Sync 0 0; Bind 0 1; Execute 0; Close 0 1; Parse 0 1 11; Sync 0 1] = (false, false).
-Proof. vm_compute. reflexivity. Qed.
-
-(* (v) G4: more statements in a batch than the server cache holds *)
+(* G4 (known F11e): a batch that needs more server-side statements than the cache holds *)
 Example c08_gap_batch_larger_than_cache :
   agree (Kid 1) [Parse 0 1 10; Parse 0 2 11; Bind 0 1; Execute 0; Sync 0 0] = (false, false) /\
   agree (Kid 2) [Parse 0 1 10; Parse 0 2 11; Parse 0 3 12; Sync 0 0; Bind 0 1; Execute 0; Sync 0 0; Bind 0 1; Execute 0; Sync 0 0] = (false, false) /\
@@ -249,25 +242,29 @@ Example c08_gap_batch_larger_than_cache :
    (lru (servers w 0), btab (servers w 0)) = ([2; 1], [(2, 12); (1, 11); (0, 10)])).
 Proof. vm_compute. repeat split; reflexivity. Qed.
 
-(* G1: a client's DEALLOCATE ALL empties the backend under every other client's statements *)
-Example c08_gap_client_deallocate_all :
-  agree (Kid 4) [Parse 0 1 10; Sync 0 0; Parse 1 1 99; Bind 1 1; Execute 1; Sync 1 0; Bind 0 1; Execute 0; Sync 0 0] = (false, false).
+(* G1 (known F11g, unrepaired half): a Parse that failed stays in the client map; its out-of-band
+   retry fails again and the ErrorResponse drains the registration of a Parse still waiting in the
+   batch: the backend gets PGCAT_1, the cache forgets it, the next client gets 42P05 *)
+Example c08_gap_failed_parse_stays_in_client_map :
+  agree (Kid 4) [Parse 0 9 90; Sync 0 1; Parse 0 1 10; Bind 0 9; Execute 0; Sync 0 0; Parse 1 1 10; Bind 1 1; Execute 1; Sync 1 0] = (false, false) /\
+  (let w := fst (run (Kid 4) world0 [Parse 0 9 90; Sync 0 1; Parse 0 1 10; Bind 0 9; Execute 0; Sync 0 0]) in
+   (lru (servers w 0), btab (servers w 0)) = ([], [(1, 10)])).
+Proof. vm_compute. split; reflexivity. Qed.
+
+(* G1 (known F11f3): DEALLOCATE ALL executed in a batch that Parses another statement after it *)
+Example c08_gap_deallocate_all_then_parse_same_batch :
+  agree (Kid 4) [Parse 0 1 99; Bind 0 1; Execute 0; Parse 0 2 10; Sync 0 0; Parse 1 1 10; Bind 1 1; Execute 1; Sync 1 0] = (false, false).
 Proof. vm_compute. reflexivity. Qed.
 
-(* G1: a Parse that failed stays in the client map; its out-of-band retry makes the backend skip
-   the Close of the evicted statement; another client loses its statement and is disconnected *)
-Example c08_gap_failed_parse_close_skipped :
-  agree (Kid 2) [Parse 1 1 10; Sync 1 0; Parse 1 2 11; Sync 1 0; Parse 0 1 90; Sync 0 1; Bind 0 1; Execute 0; Sync 0 0;
-                 Bind 1 1; Execute 1; Sync 1 0; Bind 1 1; Execute 1; Sync 1 0] = (false, false).
-Proof. vm_compute. reflexivity. Qed.
-
-(* G3 and deliberate leniency: Bind of an unknown name disconnects the client (a direct
-   connection answers 26000 and carries on); Close of the unnamed statement is forwarded but the
-   client map keeps it; re-Parse of a named statement without Close is accepted (PostgreSQL: 42P05) *)
+(* G3 and deliberate leniency: Bind of a name that does not exist answers E+Z and disconnects
+   the client (a direct connection answers 26000 and carries on); Close of the unnamed statement
+   is forwarded but the client map keeps it; re-Parse of a named statement without Close is
+   accepted (PostgreSQL: 42P05) *)
 Example c08_gap_unknown_name_disconnects :
   model_obs (Kid 4) [Bind 0 1; Execute 0; Sync 0 0; Parse 0 1 10; Sync 0 0] = [NKilled 0] /\
-  spec_obs (Kid 4) [Bind 0 1; Execute 0; Sync 0 0; Parse 0 1 10; Sync 0 0] = [NReplies 0 ([RErr], (0, 0, 0, 1)); NReplies 0 ([], (1, 0, 0, 1))].
-Proof. vm_compute. split; reflexivity. Qed.
+  spec_obs (Kid 4) [Bind 0 1; Execute 0; Sync 0 0; Parse 0 1 10; Sync 0 0] = [NReplies 0 ([RErr], (0, 0, 0, 1)); NReplies 0 ([], (1, 0, 0, 1))] /\
+  agree (Kid 4) [Parse 0 1 90; Sync 0 0; Bind 0 1; Execute 0; Sync 0 0; Bind 0 1; Execute 0; Sync 0 0] = (false, false).
+Proof. vm_compute. repeat split; reflexivity. Qed.
 Example c08_gap_close_unnamed_kept :
   agree (Kid 4) [Parse 0 0 10; Sync 0 0; Close 0 0; Sync 0 0; Bind 0 0; Execute 0; Sync 0 0] = (false, false).
 Proof. vm_compute. reflexivity. Qed.
